@@ -2063,6 +2063,11 @@ func (t *Topic) anotherUserSub(sess *Session, asUid, target types.Uid, asChan bo
 			modeWant:  sub.ModeWant,
 			private:   nil,
 		}
+		// Re-creating a deleted subscription keeps its stored 'private' value:
+		// load it to keep the cache consistent with the database.
+		if restored, err := store.Subs.Get(t.name, target, false); err == nil && restored != nil {
+			userData.private = restored.Private
+		}
 		if t.cat == types.TopicCatP2P {
 			// The name of a p2p topic as the target user sees it: the ID of the other participant.
 			userData.topicName = asUid.UserId()
